@@ -9,6 +9,11 @@ func checkC08(p *Program, tier string) *Result {
 	ruleSeq(p, r)
 	ruleLoop(p, r, "bcde")
 	r.floor("R-LOOP", 8)
-	r.Assumptions = append(r.Assumptions, "the response's header field is advanced to the reply header by Reply (decided under C06, R-MIRROR)")
+	// 'or sent': the header the loop records after the handler is the reply's (R-MIRROR, the one clause C08 needs)
+	sub := newResult("C06")
+	ruleMirror(p, sub)
+	if r.takeFrom(sub, "R-MIRROR", "stored-header-advances") == 0 {
+		r.undecided("R-MIRROR", "stored-header-advances", "-", "the clause that the response's stored header advances to the reply header was not produced")
+	}
 	return r
 }
